@@ -228,7 +228,26 @@ func runLong(c *mc.Ctx, r *mc.Result) {
 		h := label(63, 'a') + "." + label(63, 'b') + "." + label(63, 'c') + "." + label(last, 'd')
 		hosts = append(hosts, h, h+".b", h+".b:80", h+".b.", h+".c")
 	}
-	r.Bounds["long"] = fmt.Sprintf("%d route sets with hostnames of 250..255 bytes and four-parameter hostnames x %d Hosts of 249..260 bytes (exact, port, trailing dot, one byte short/long/different) x paths / and /a", len(sets), len(hosts))
+	// deep hostname trees: at every one of d levels a static label and a {param} sibling (whose branch fails), the
+	// all-static branch fails at the very end, and the matching route is reached through the deepest parameter: the
+	// walk has d pending alternatives at once
+	for d := 2; d <= 12; d++ {
+		var labels []string
+		for i := 1; i <= d; i++ {
+			labels = append(labels, fmt.Sprintf("s%d", i))
+		}
+		pats := []string{strings.Join(labels, ".") + ".end/", strings.Join(labels[:d-1], ".") + ".{p}.fin/", "/"}
+		if d == 2 {
+			pats[1] = labels[0] + ".{p}.fin/"
+		}
+		for i := 0; i < d-1; i++ {
+			pats = append(pats, strings.Join(append(append([]string{}, labels[:i]...), "{p}", "q"), ".")+"/")
+		}
+		sets = append(sets, pats)
+		full := strings.Join(labels, ".")
+		hosts = append(hosts, full+".fin", full+".end", full+".fin:80", full+".q", strings.Join(labels[:d-1], ".")+".zz.fin", full+".fi")
+	}
+	r.Bounds["long"] = fmt.Sprintf("%d route sets with hostnames of 250..255 bytes and four-parameter hostnames, plus hostname trees of depth 2..12 with a static and a parameter alternative at every level, x %d Hosts (249..260 bytes: exact, port, trailing dot, one byte short/long/different; deep hosts reaching their route through the deepest alternative) x paths / and /a", len(sets), len(hosts))
 	for _, pats := range sets {
 		var set []rsx.RouteSpec
 		for _, p := range pats {
